@@ -52,6 +52,10 @@ CHECKS = {
    text="Pipeline.tla with tamper actions (program hash element, kernel add/remove/replace, input change/append(incl. explicit zero)/remove, output top/deep element, overflow address, output append/truncate, proof byte flips in 16 regions, truncations, tag relabelling, invalid tag, weaker-than-accepted options); TLC checks Binding (acceptance implies untampered statement, intact proof, accepted options). Every behaviour x several positions is replayed on real proofs for all four option sets with and without the byte round trip: the verifier must return an error, never accept, never panic.",
    note="Trusted: TLC; a corrupted proof surviving verification by chance (<= 2^-16) would be reported. Bytes appended after a complete proof are recorded, not judged (the decoded proof is the same proof).",
    tech="TLA+ pipeline model with tamper actions; behaviours replayed on real proofs", ref="DESIGN.md §4 C02"),
+ "C19": dict(cat="model_checking",
+   text="Wire.tla gives the byte-level layout of StackInputs / StackOutputs / Kernel / ProgramInfo; TLC enumerates byte strings (declared counts x element encodings 0, 1, p-1, p, 2^64-1 x tail truncations x trailing bytes), checks ReEncode and PrefixesRejected on the model, and every string is fed to the real decoder: never a panic, an accepted value must re-serialise to bytes that decode to an equal value, and every decoded statement part is handed to verify() with a valid proof, which must not panic; integer constructors must reject exactly the non-canonical values. Proofs and program / module ASTs are covered by structured mutation of valid encodings (systematic header bytes, bit flips, truncations, length bytes) under the same monitor.",
+   note="Model checking for the small containers; the large formats are monitor-only (exploration). Whether a decoder accepts what the model calls malformed is recorded, not judged. Known finding KF-C19-winter-proof-header (panics inside the winter-air dependency) is reported as KNOWN-FINDING.",
+   tech="TLA+ byte-level wire model; TLC-enumerated byte strings replayed on the decoders + mutation monitor for large formats", ref="DESIGN.md §4 C19"),
 }
 
 NOT_APPLICABLE = {
